@@ -42,6 +42,14 @@ func expectedReplacement(p *Program, cmd Command, m MatchRec, flat map[string]st
 			env["match"] = VS(m.Value)
 			env["matchLength"] = VN(len(m.Value))
 			env["matchNumber"] = VN(m.MatchNumber)
+			// the other built-ins: only ever read on the right of a string concatenation
+			// (gen2.go genTransform), where their decimal rendering is all that matters
+			env["startOffset"] = VN(m.Start)
+			env["endOffset"] = VN(m.End)
+			env["lineNumber"] = VN(m.LineStart)
+			env["columnNumber"] = VN(m.ColStart)
+			env["totalMatches"] = VN(total)
+			env["value"] = VS(m.Value)
 			func() {
 				defer func() {
 					if r := recover(); r != nil {
